@@ -289,9 +289,15 @@ def features(tr: dict, reached: int) -> dict:
             "mutations_before": [x["mut"]["kind"] for x in evs[:reached] if x["e"] == "mutate"]}
 
 
+def compact(e: dict) -> dict:
+    """An event without its blank fields (for messages)."""
+    blank = dict(pcall.BLANK, obs=pcall.BLANK_OBS, mut=pcall.BLANK_MUT)
+    return {k: v for k, v in e.items() if k == "e" or v != blank.get(k)}
+
+
 def validate(ctx: Ctx, traces: list[dict], name: str, report: bool = True) -> dict[int, dict]:
     rej = validate_traces(ctx, "TracePipelineCache", traces, name, invariants=["InvDoneOnlyNeeded", "InvMustNeeded"],
-                          strip=("script", "cache_type", "cache_kwargs", "outcomes", "src"), chunk=250,
+                          strip=("script", "cache_type", "cache_kwargs", "outcomes", "src"), chunk=400,
                           constants=SCHEME_CONST, count=report)
     why = explain(ctx, traces, rej, name)
     res = {}
@@ -305,10 +311,10 @@ def validate(ctx: Ctx, traces: list[dict], name: str, report: bool = True) -> di
         e = evs[min(reached, len(evs)) - 1]
         k0 = max(k for k in range(reached) if evs[k]["e"] == "begin") if any(x["e"] == "begin" for x in evs[:reached]) else 0
         ctx.violation(sig, f"cached pipeline history not explained by PipelineCache.tla at event {reached} "
-                           f"({sig['clause']}, cause {sig['cause']}): {json.dumps(e)[:400]}",
+                           f"({sig['clause']}, cause {sig['cause']}): {json.dumps(compact(e))[:500]}",
                       {"desc": tr["desc"], "cache_type": tr["cache_type"], "cache_kwargs": tr["cache_kwargs"],
                        "script": tr["script"], "rejected_event_index": reached, "features": features(tr, reached),
-                       "events": evs[k0:reached]})
+                       "events": [compact(x) for x in evs[k0:reached]]})
     return res
 
 
@@ -397,7 +403,7 @@ def run(ctx: Ctx) -> None:
     else:
         specs = [dict(name="asis", n=2, fam="f2", maxlen=4, maxmut=1, scheme="asis", export=True, nshards=16, invs=""),
                  dict(name="asis3", n=3, fam="f3", maxlen=3, maxmut=1, scheme="asis", export=True, nshards=16, invs=""),
-                 dict(name="rep", n=2, fam="f2", maxlen=4, maxmut=1, scheme="repaired", export=False, nshards=16, invs=rep_invs),
+                 dict(name="rep", n=2, fam="f2", maxlen=4, maxmut=2, scheme="repaired", export=False, nshards=16, invs=rep_invs),
                  dict(name="rep3", n=3, fam="f3", maxlen=3, maxmut=1, scheme="repaired", export=False, nshards=16, invs=rep_invs),
                  dict(name="repu2", n=2, fam="u2", maxlen=3, maxmut=1, scheme="repaired", export=False, nshards=16, invs=rep_invs)]
         budget = 8000
@@ -487,7 +493,10 @@ def replay(rep: dict) -> int:
     if ckw and "cache_dir" in ckw:
         ckw["cache_dir"] = tempfile.mkdtemp(prefix="pfverif_c09_replay_")
     tr = run_history(w["desc"], w["cache_type"], ckw, w["script"])
-    print(json.dumps({"desc": w["desc"], "cache_type": w["cache_type"], "cache_kwargs": ckw}, indent=1)[:3000])
+    for f in w["desc"]["funcs"]:
+        print(f"  {f['name']}({', '.join(f['params'])}) -> {', '.join(f['outputs'])}  cache={f['cache']}"
+              f"  defaults={[(p, v['f']) for p, v in f['defaults']]}  bound={[(p, v['f']) for p, v in f['bound']]}")
+    print(f"  cache_type={w['cache_type']} cache_kwargs={ckw}")
     bad = 0
     prev = None
     for k, (op, oc) in enumerate(zip(w["script"], tr["outcomes"])):
